@@ -2031,4 +2031,37 @@ theorem sinkCut_eq_iff (n : Nat) (fs : List WFile) :
       · rfl
       · rw [if_pos rfl, if_pos rfl, List.take_of_length_le (h f (List.mem_cons_self ..) ht)]
 
+/-! ### import statements that cannot be resolved (helpers of the `…import…` theorems) -/
+
+theorem runSteps_oks_then (oks : List CStep) (hoks : ∀ s ∈ oks, s.2 = none) (via : Bool) (e : GoErr)
+    (rest : List CStep) :
+    runSteps (oks ++ (via, some e) :: rest) = some (if via then failStep e [] else failDirect e) := by
+  induction oks with
+  | nil => cases via <;> rfl
+  | cons s t ih =>
+    obtain ⟨v, x⟩ := s
+    have hx : x = none := hoks (v, x) (List.mem_cons_self ..)
+    subst hx
+    simp only [List.cons_append, runSteps]
+    exact ih fun s hs => hoks s (List.mem_cons_of_mem _ hs)
+
+theorem dedupSort_singleton (a : Annot) : dedupSort [a] = [a] := by
+  simp [dedupSort, dedupSortWith, dedupWith, sortS, ins]
+
+/-- the observables of a run that ended in a controller method with a one-annotation set -/
+theorem failStep_annotation (a : Annot) :
+    (failStep (.annotSet a []) []).exit = 100 ∧ (failStep (.annotSet a []) []).printed = [a] ∧
+    (failStep (.annotSet a []) []).failureLine = false := by
+  refine ⟨?_, ?_, ?_⟩
+  · rfl
+  · simp [failStep, handleFAS, GoErr.findAnnots, dedupSort_singleton]
+  · rfl
+
+theorem importFate_ok (files wkt : List Str) (p q : Str)
+    (hv : BufModel.Path.normalizeAndValidate p = .ok q) :
+    importFate files wkt p =
+      if files.contains q then (if q = p then .file else .notNormal)
+      else if wkt.contains q then (if q = p then .wkt else .notNormal) else .notExist := by
+  simp only [importFate, hv]
+
 end BufModel.Annot
